@@ -444,6 +444,61 @@ def _none_or_number_slots(fn):
     return out
 
 
+def _g10(ctx):
+    from .. import pyconst
+    rel = D + "xilinx_usp.py"
+    m = ctx.mod(rel)
+    fn = m.method("USPMMCM", "compute_config")
+    cm = ctx.mod(D + "common.py")
+    xc = ctx.mod(D + "xilinx_common.py")
+    funcs = {n.name: n for mod in (cm, xc, m) for n in mod.tree.body if isinstance(n, ast.FunctionDef)}
+    # class-level constants of USPMMCM and its base
+    me = pyconst.NS()
+    for cnode in (xc.cls("XilinxClocking"), m.cls("USPMMCM")):
+        it0 = pyconst.Interp(funcs=funcs)
+        it0.run([st for st in cnode.body if isinstance(st, (ast.Assign, ast.AnnAssign))])
+        me.update({k: v for k, v in it0.env.items() if v is not pyconst.UNKNOWN})
+    it = pyconst.Interp({"self": me}, funcs=funcs)
+    try:
+        it.run(fn.body)
+    except Exception as ex:
+        ctx.need(False, f"USPMMCM.compute_config cannot be interpreted: {ex}")
+    grid = [x / 8 for x in range(16, 1025)]
+
+    def judge(role, vals, node):
+        ok = vals is not pyconst.UNKNOWN and vals is not None
+        detail = ""
+        if not ok:
+            detail = "the list of values is not a compile-time constant any more (rule cannot decide)"
+            ctx.need(False, f"USPMMCM.compute_config: {role}: {detail}")
+        vals = [float(v) for v in vals]
+        off = [v for v in vals if not (2.0 <= v <= 128.0) or (v * 8) != int(v * 8)]
+        ends = (2.0 in vals) and (128.0 in vals)
+        ok = not off and ends and sorted(set(vals)) == grid
+        ctx.ob("G10", rel, "USPMMCM.compute_config", role, ok,
+               "" if ok else (f"{len(off)} values outside 2.0 .. 128.0 / off the 1/8 grid are tried (e.g. {off[:3]} .. {off[-1:]}): a returned "
+                              f"configuration can carry a multiplier / divider the primitive does not have" if off else
+                              f"the documented range is not covered (min {min(vals) if vals else None}, max {max(vals) if vals else None}, "
+                              f"{len(set(vals))} of {len(grid)} grid points): legal requests are refused"), node)
+    mults = [n for n in ast.walk(fn) if isinstance(n, ast.Assign) and norm(n.targets[0]) == "clkfbout_mult_f_values"]
+    ctx.need(len(mults) == 1, "USPMMCM.compute_config: clkfbout_mult_f_values is no longer assigned once (anchor changed)")
+    judge("CLKFBOUT_MULT_F values = 2.0 .. 128.0 step 0.125", it.env.get("clkfbout_mult_f_values", pyconst.UNKNOWN), mults[0])
+    d0 = []
+    for n in ast.walk(fn):
+        if isinstance(n, ast.If) and pathx_canon(n.test) == pathx_canon("n == 0"):
+            d0 += [st for st in n.body if isinstance(st, ast.Assign) and norm(st.targets[0]) == "dividers"]
+    ctx.need(len(d0) == 1, "USPMMCM.compute_config: `if n == 0: dividers = ...` not found (anchor changed)")
+    v = it.ev(d0[0].value)
+    if isinstance(v, pyconst.Gen):
+        v = list(v)
+    judge("CLKOUT0_DIVIDE_F values = 2.0 .. 128.0 step 0.125", v, d0[0])
+
+
+def pathx_canon(t):
+    from ..pathx import canon_test
+    return canon_test(t)
+
+
 def run(ctx):
     ctx.rule("G1", "every loop variable that reaches the returned configuration iterates a declared *_range attribute "
                    "(range/reversed/clkdiv_range of self.<x>range, possibly through locals); frozen exceptions with reason",
@@ -491,6 +546,10 @@ def run(ctx):
                            "" if ok else f"`{norm(n)}` is a{'n upper' if upper else ' lower'} bound of the search (window element "
                                          f"{'[0] in the denominator / [1] in the numerator' if upper else '[1] in the denominator / [0] in the numerator'}) "
                                          f"but rounds {'up' if is_ceil else 'down'}: the first value outside the window is searched and can be returned", n)
+    ctx.rule("G10", "UltraScale+ MMCM fractional settings: every value tried for CLKFBOUT_MULT_F and for CLKOUT0_DIVIDE_F lies in the "
+                    "documented range 2.0 .. 128.0 on the 0.125 grid, and both ends are tried (values are computed from the source by "
+                    "constant propagation, generators included)", min_sites=2)
+    _g10(ctx)
     ctx.rule("G9", "the VCO guard band narrows the window: wherever vco_margin scales a window edge, the lower edge (vco min / range[0]) "
                    "is multiplied by (1 + margin) and the upper edge (vco max / range[1]) by (1 - margin)", min_sites=10)
     for p9 in sorted(ctx.mod(D + "common.py") and [f for f in ("gowin_gw1n.py", "gowin_gw5a.py", "intel_common.py", "xilinx_common.py", "xilinx_usp.py")]):
